@@ -10,12 +10,14 @@ theorem paramsCheck_eq (o : Opts V) (n : Nat) : paramsCheck o n = paramsContract
   cases o.maxParams <;> cases o.minParams <;> simp
 
 theorem parseAddition_eq (W : World V) (P : Parser V) (o : Opts V) (kv : Key × V) :
-    parseAddition W P o kv.1 kv.2 = additionContract W P.additionTyped o kv := by
+    parseAddition W P o kv.1 kv.2 = additionContract W P.additionTyped (P.excludeVars.contains kv.1) o kv := by
   unfold parseAddition additionContract
-  cases o.addition <;> simp only
-  cases P.additionTyped <;> simp only [Bool.not_true, Bool.not_false, Bool.false_eq_true, if_false, if_true]
-  cases W.addConv kv.2 <;> simp only
-  cases o.invalidValues <;> rfl
+  cases ha : o.addition <;> simp only [reduceCtorEq, if_true, if_false]
+  · cases P.excludeVars.contains kv.1 <;> simp
+  · cases P.excludeVars.contains kv.1 <;> simp only [Bool.false_eq_true, if_true, if_false]
+    cases P.additionTyped <;> simp only [Bool.not_true, Bool.not_false, Bool.false_eq_true, if_false, if_true]
+    cases W.addConv kv.2 <;> simp only
+    cases o.invalidValues <;> rfl
 
 /-- lookup in the list of the values the contracts prescribe -/
 theorem dget_filterMap_values (out : PField V → FieldOut V) (l : List (PField V)) (hnd : (l.map (·.name)).Nodup)
@@ -60,8 +62,8 @@ theorem dget_filterMap_values_other (out : PField V → FieldOut V) (l : List (P
 
 /-- the kept unknown keys, as the contract lists them -/
 theorem addAll_eq (W : World V) (P : Parser V) (o : Opts V) (l : List (Key × V)) (hnd : (l.map (·.1)).Nodup) :
-    addAll W P o l = (l.filterMap (fun kv => (additionContract W P.additionTyped o kv).1.map (kv.1, ·)),
-                      l.flatMap (fun kv => (additionContract W P.additionTyped o kv).2)) := by
+    addAll W P o l = (l.filterMap (fun kv => (additionContract W P.additionTyped (P.excludeVars.contains kv.1) o kv).1.map (kv.1, ·)),
+                      l.flatMap (fun kv => (additionContract W P.additionTyped (P.excludeVars.contains kv.1) o kv).2)) := by
   induction l using Utv.List.rev_ind with
   | nil => rfl
   | snoc l kv ih =>
@@ -71,7 +73,7 @@ theorem addAll_eq (W : World V) (P : Parser V) (o : Opts V) (l : List (Key × V)
     rw [parseAddition_eq]
     simp only [List.filterMap_append, List.flatMap_append, List.filterMap_cons, List.filterMap_nil,
       List.flatMap_cons, List.flatMap_nil, List.append_nil]
-    cases hv : (additionContract W P.additionTyped o kv).1 with
+    cases hv : (additionContract W P.additionTyped (P.excludeVars.contains kv.1) o kv).1 with
     | none => simp
     | some x =>
       simp only [Option.map_some]
@@ -80,9 +82,10 @@ theorem addAll_eq (W : World V) (P : Parser V) (o : Opts V) (l : List (Key × V)
       simp only [List.map_filterMap, List.mem_filterMap] at hc
       obtain ⟨kv', hkv', he⟩ := hc
       have : kv'.1 = kv.1 := by
-        cases h : (additionContract W P.additionTyped o kv').1 with
-        | none => simp [h] at he
-        | some y => simpa [h] using he
+        generalize (additionContract W P.additionTyped (P.excludeVars.contains kv'.1) o kv').1 = X at he
+        cases X with
+        | none => simp at he
+        | some y => simpa using he
       exact hnd.2.2 kv'.1 (List.mem_map_of_mem (f := (·.1)) hkv') kv.1 (by simp) this
 
 theorem extras_eq (W : World V) (P : Parser V) (data : List (Key × V)) :
@@ -153,13 +156,13 @@ theorem lackOf_contract {W : World V} {P : Parser V} (wf : WF W P) (out : PField
         · exfalso
           exact h (g, out g) (List.mem_map.mpr ⟨g, hg, rfl⟩) (by simp [hp, hv])
 
-theorem keys_filterMap_add (W : World V) (typed : Bool) (o : Opts V) (l : List (Key × V)) :
-    (l.filterMap fun kv => (additionContract W typed o kv).1.map (kv.1, ·)).map (·.1)
-      = (l.filter fun kv => (additionContract W typed o kv).1.isSome).map (·.1) := by
+theorem keys_filterMap_add (W : World V) (typed : Bool) (ex : Key → Bool) (o : Opts V) (l : List (Key × V)) :
+    (l.filterMap fun kv => (additionContract W typed (ex kv.1) o kv).1.map (kv.1, ·)).map (·.1)
+      = (l.filter fun kv => (additionContract W typed (ex kv.1) o kv).1.isSome).map (·.1) := by
   induction l with
   | nil => rfl
   | cons x xs ih =>
-    cases hx : (additionContract W typed o x).1 with
+    cases hx : (additionContract W typed (ex x.1) o x).1 with
     | none => rw [List.filterMap_cons_none (by simp [hx]), List.filter_cons]; simp [hx, ih]
     | some y =>
       rw [List.filterMap_cons_some (b := (x.1, y)) (by simp [hx]), List.filter_cons]; simp [hx, ih]
@@ -184,13 +187,13 @@ theorem refRun_contract [DecidableEq V] {W : World V} (LL : LowerLaws W) {P : Pa
   have hlack := lackOf_contract wf (outOf W o data)
   obtain ⟨hdFr, hdFe⟩ := depsCheck_fields P (foldOut (outOf W o data) (P.fields.map (·.2)) ({} : St V))
   have hndA : (((extras W P data).filterMap fun kv =>
-      (additionContract W P.additionTyped o kv).1.map (kv.1, ·)).map (·.1)).Nodup := by
-    rw [keys_filterMap_add]; exact nodup_filter_keys _ hndE
+      (additionContract W P.additionTyped (P.excludeVars.contains kv.1) o kv).1.map (kv.1, ·)).map (·.1)).Nodup := by
+    rw [keys_filterMap_add W P.additionTyped (fun k => P.excludeVars.contains k)]; exact nodup_filter_keys _ hndE
   constructor
   · -- values
     intro k
     have hL : dget k (refRun W P o data).result =
-        (dget k ((extras W P data).filterMap fun kv => (additionContract W P.additionTyped o kv).1.map (kv.1, ·))).orElse
+        (dget k ((extras W P data).filterMap fun kv => (additionContract W P.additionTyped (P.excludeVars.contains kv.1) o kv).1.map (kv.1, ·))).orElse
           (fun _ => dget k ((P.fields.map (·.2)).filterMap fun f => (outOf W o data f).value.map (f.name, ·))) := by
       unfold refRun
       simp only
@@ -199,7 +202,7 @@ theorem refRun_contract [DecidableEq V] {W : World V} (LL : LowerLaws W) {P : Pa
       rw [dget_reverse_of_nodup _ _ hndA, hresF k]
     have hR : dget k (contract W P o data).result =
         (dget k ((P.fields.map (·.2)).filterMap fun f => (outOf W o data f).value.map (f.name, ·))).orElse
-          (fun _ => dget k ((extras W P data).filterMap fun kv => (additionContract W P.additionTyped o kv).1.map (kv.1, ·))) := by
+          (fun _ => dget k ((extras W P data).filterMap fun kv => (additionContract W P.additionTyped (P.excludeVars.contains kv.1) o kv).1.map (kv.1, ·))) := by
       unfold contract
       simp only
       rw [dget_append, ← extras_eq]
@@ -215,15 +218,16 @@ theorem refRun_contract [DecidableEq V] {W : World V} (LL : LowerLaws W) {P : Pa
         · exact hk
         · rw [dget_filterMap_values_other _ _ hk] at hA; cases hA
       have hB : dget k ((extras W P data).filterMap fun kv =>
-          (additionContract W P.additionTyped o kv).1.map (kv.1, ·)) = none := by
+          (additionContract W P.additionTyped (P.excludeVars.contains kv.1) o kv).1.map (kv.1, ·)) = none := by
         rw [dget_eq_none_iff]
         intro hc
         simp only [List.map_filterMap, List.mem_filterMap] at hc
         obtain ⟨kv, hkv, he⟩ := hc
         have hkk : kv.1 = k := by
-          cases h : (additionContract W P.additionTyped o kv).1 with
-          | none => simp [h] at he
-          | some y => simpa [h] using he
+          generalize (additionContract W P.additionTyped (P.excludeVars.contains kv.1) o kv).1 = X at he
+          cases X with
+          | none => simp at he
+          | some y => simpa using he
         unfold extras at hkv
         rw [List.mem_filter] at hkv
         simp only [List.map_map, List.mem_map] at hk
@@ -242,7 +246,7 @@ theorem refRun_contract [DecidableEq V] {W : World V} (LL : LowerLaws W) {P : Pa
         ∨ (∃ g ∈ P.fields.map (·.2), e ∈ (outOf W o data g).errs)
         ∨ ((lackOf P (foldOut (outOf W o data) (P.fields.map (·.2)) ({} : St V))).isEmpty = false
             ∧ e = .depsAbsence (lackOf P (foldOut (outOf W o data) (P.fields.map (·.2)) ({} : St V))))
-        ∨ (∃ kv ∈ extras W P data, e ∈ (additionContract W P.additionTyped o kv).2) := by
+        ∨ (∃ kv ∈ extras W P data, e ∈ (additionContract W P.additionTyped (P.excludeVars.contains kv.1) o kv).2) := by
       unfold refRun
       simp only
       rw [paramsCheck_eq, hadd]
